@@ -331,10 +331,23 @@ def run(ctx, col: Collector):
                   'build_database does not create a new Database for this parse', node=bd.node, file=bd.file)
         # PyDBML.parse / parse_file create a new parser per call
         for fname in ('PyDBML.parse', 'PyDBML.parse_file'):
-            fi = idx.func('pydbml.parser.parser', fname)
+            from ..inline import inlined_info
+            fi = inlined_info(idx, idx.func('pydbml.parser.parser', fname), depth=2, keep={'remove_bom', 'parse', 'parse_file'})
             news = [n for n in walk_no_nested(fi.node) if isinstance(n, ast.Call) and norm(n.func) == 'PyDBMLParser']
-            col.check(len(news) >= 1, 'C11-fresh', f'{fname}:new-parser', 'a new PyDBMLParser per call',
-                      f'{fname} does not construct a new PyDBMLParser per call', node=fi.node, file=fi.file)
+            if news:
+                col.ok('C11-fresh', f'{fname}:new-parser', 'a new PyDBMLParser per call', node=fi.node, file=fi.file)
+            else:
+                # delegation to something this rule did not read is no evidence; a `.parse()` on a name that is not created in the call is
+                calls_out = [c for c in walk_no_nested(fi.node) if isinstance(c, ast.Call) and isinstance(c.func, ast.Name) and idx.resolve(fi.module, c.func.id) is not None
+                             and idx.resolve(fi.module, c.func.id).kind == 'func']
+                shared = [c for c in walk_no_nested(fi.node) if isinstance(c, ast.Call) and isinstance(c.func, ast.Attribute) and c.func.attr == 'parse'
+                          and isinstance(c.func.value, (ast.Name, ast.Attribute)) and norm(c.func.value) not in ('cls', 'PyDBML')]
+                if shared and not calls_out:
+                    col.bad('C11-fresh', f'{fname}:new-parser', f'{fname} parses with `{norm(shared[0].func.value)}`, an object that is not created in the call: parser state is '
+                            f'shared between calls', node=fi.node, file=fi.file)
+                else:
+                    col.unk('C11-fresh', f'{fname}:new-parser', f'{fname}: no PyDBMLParser(...) construction found in the function or the helpers read in place', node=fi.node,
+                            file=fi.file)
         # dict-valued data reaching model objects is created per parse
         gmn = gm.nodes_with_action('parse_table', True) + gm.nodes_with_action('parse_column_settings', True) + gm.nodes_with_action('parse_project')
         seen_a = set()
